@@ -112,12 +112,40 @@ class SchedLock(object):
         self.inner.release()
         self.s.lock_epoch += 1
 
-    def acquire(self, *a, **k):
+    def acquire(self, blocking=True, timeout=-1):
+        if not blocking or (timeout is not None and timeout >= 0):
+            got = self.inner.acquire(False)            # try-lock semantics are kept (no waiting under the scheduler)
+            if got:
+                self.acquisitions += 1
+            return got
         self.__enter__()
         return True
 
     def release(self):
         self.__exit__()
+
+
+def wrap_locks(sched, *objs):
+    """replace every lock-like attribute of the objects (instance or class level) by a SchedLock: blocking on ANY of the
+    code's own locks is then visible to the scheduler (deadlocks between two of them included).  Returns {name: SchedLock}."""
+    out = {}
+    for o in objs:
+        for name in dir(o):
+            if name.startswith('__'):
+                continue
+            try:
+                v = getattr(o, name)
+            except Exception:  # noqa
+                continue
+            if isinstance(v, SchedLock) or isinstance(v, type) or not (callable(getattr(v, 'acquire', None)) and callable(getattr(v, 'release', None))):
+                continue
+            w = SchedLock(v, sched)
+            try:
+                setattr(o, name, w)
+            except Exception:  # noqa
+                continue
+            out['%s.%s' % (type(o).__name__, name)] = w
+    return out
 
 
 def explore(run_one, limit, rng=None, sample=0):
